@@ -50,6 +50,8 @@ def setup_paths():
     os.environ["PYTHONPATH"] = shims + os.pathsep + REPO
     os.environ.setdefault("PYTHONHASHSEED", "0")
     os.environ["DNACHISEL_VERIF"] = "1"
+    import warnings
+    warnings.filterwarnings("ignore")
     import importlib
     import sitecustomize  # noqa: F401  (the shim; idempotent)
     importlib.reload(sitecustomize)
@@ -247,7 +249,7 @@ class Check:
         for k, terms in enumerate(shards):
             path = os.path.join(self.scratch, "cases_%s_%d_%d.v" % (self.pid, len(os.listdir(self.scratch)), k))
             with open(path, "w") as f:
-                f.write("From Coq Require Import ZArith QArith List String Bool.\nImport ListNotations.\n")
+                f.write("From Coq Require Import ZArith QArith List Ascii String Bool.\nImport ListNotations.\n")
                 f.write(imports + "\n")
                 f.write("Open Scope Z_scope.\n")
                 f.write("Definition cases : list (%s) := [\n  " % case_type)
@@ -285,7 +287,7 @@ class Check:
             for i in bad[:5]:
                 path = os.path.join(self.scratch, "show_%d.v" % i)
                 with open(path, "w") as f:
-                    f.write("From Coq Require Import ZArith QArith List String Bool.\nImport ListNotations.\n")
+                    f.write("From Coq Require Import ZArith QArith List Ascii String Bool.\nImport ListNotations.\n")
                     f.write(imports + "\nOpen Scope Z_scope.\n")
                     f.write("Eval vm_compute in (%s (%s)).\n" % (show, case_terms[i]))
                 r = subprocess.run(["timeout", "300", "coqc", "-Q", COQ, "DC", "-o", path + "o", path],
